@@ -275,3 +275,38 @@ PROPS["C07"] = {
     "floors": [("histories", "call/unmocked-slot-panics", 100), ("histories", "call/mocked-slot-after-gc", 100),
                ("histories", "call/mocked-slot-after-builder-dropped", 50), ("histories", "variable-with->=2-mocked-slots", 100)],
 }
+
+PROPS["C04"] = {
+    "units": [
+        {"name": "configurations", "pkg": "./zverif/stubs", "run": "^TestVerifC04$", "timeout": {"quick": 300, "thorough": 2400},
+         "shards": {"quick": 1, "thorough": 16}},
+    ],
+    "rule": "rapid draws a target (5 plain functions, 4 variadic functions with 0..3 leading fixed parameters, 3 methods with pointer/value receivers incl. a "
+            "variadic one), a well-formed stub configuration (optional default, then 0..5 clauses: When with per-argument plain value / Any / arg.In, or "
+            "In with 1..3 alternative tuples, for variadics also of different lengths) over small overlapping value pools, and 1..20 hit-biased calls. "
+            "Oracle: a reference interpreter (first registered clause all of whose expressions match, counts must agree for variadic tails, else "
+            "default, else panic with the 'no suitable condition' message); for plain functions When.Eval must agree with the call. Non-trivial: a "
+            "call decided by a clause other than the first, by the default while clauses exist, or by the no-condition panic; distinct by "
+            "(target, number of clauses, default, decision sequence).",
+    "assumptions": ["condition values come from the domain where equality is unambiguous (ints, strings, bools, ordinary floats, comparable structs, pointers by pointee, slices by content, interface{} holding ints/strings)"],
+    "floors": [("configurations", "decided/later-clause", 500), ("configurations", "decided/panic-no-condition", 100), ("configurations", "variadic/1-fixed", 100),
+               ("configurations", "variadic/3-fixed", 100), ("configurations", "method", 300), ("configurations", "clause/in", 200)],
+}
+
+PROPS["C05"] = {
+    "units": [
+        {"name": "sequential", "pkg": "./zverif/stubs", "run": "^TestVerifC05$", "timeout": {"quick": 300, "thorough": 2400},
+         "shards": {"quick": 1, "thorough": 12}},
+        {"name": "concurrent", "pkg": "./zverif/stubs", "run": "^TestVerifC05Concurrent$", "race": True, "timeout": {"quick": 300, "thorough": 2400},
+         "shards": {"quick": 1, "thorough": 4}},
+    ],
+    "rule": "sequential: the C04 configurations with a result sequence of 1..8 distinct elements on the default and on every clause (Return+AndReturn or "
+            "Returns form) and 5..60 calls selecting stubs in generated interleavings; oracle: one cursor per stub in the reference model (k-th selecting "
+            "call gets element k, later ones the last, stubs advance independently). concurrent (race build): one stub with 2..64 elements, 2..16 "
+            "callers behind a spin barrier with generated yields; oracle sound for any schedule: every value is an element, positions never decrease "
+            "within a caller, after a call returning the last element has completed every call started later returns the last, no race report. "
+            "Non-trivial (sequential): >=2 stubs with >=2 elements and a call beyond a tail; (concurrent) every round; distinct by configuration and "
+            "decision sequence / by (length, goroutines, calls, yield).",
+    "assumptions": ["the concurrent half is a seeded stress search: the harness does not own the scheduler"],
+    "floors": [("sequential", "sequence/beyond-tail", 500), ("concurrent", "rounds-running-past-the-tail", 50)],
+}
